@@ -135,8 +135,11 @@ def sensitivity(argv):
                            VERIF_REPLAY_DIR=os.path.join(d, "replays"))
                 cp = subprocess.run([CHECK, prop, "--tier", "quick"], cwd=VERIF, env=env, capture_output=True, text=True, timeout=3600)
                 detected = cp.returncode == 1 and "VIOLATION property=" + prop in cp.stdout
-                if not detected:
+                known_miss = bool(meta and meta.get("known_miss"))
+                if not detected and not known_miss:
                     missed += 1
+                if known_miss:
+                    name = name + " [known miss, see meta.json]" if not name.endswith("]") else name
                 rows.append((name, prop, f"tests={tests} detected={'yes' if detected else 'NO'} rc={cp.returncode} {time.monotonic() - t0:.0f}s "
                              + cp.stdout.strip().splitlines()[0][:160] if cp.stdout.strip() else f"tests={tests} detected=NO rc={cp.returncode} " + cp.stderr[-300:]))
         finally:
